@@ -265,20 +265,34 @@ func main() {
 
 	// --- exhaustive core
 	states := run.N(60, 600)
-	methods := []string{"GetBlob", "GetBlobRange", "GetManifest", "GetTag", "ResolveBlob", "ResolveManifest", "ResolveTag", "PushBlob", "PushBlobChunked", "PushBlobChunkedResume", "MountBlob", "PushManifest", "DeleteBlob", "DeleteManifest", "DeleteTag", "Repositories", "Tags", "Referrers", "Upload"}
+	methods := []string{"GetBlob", "GetBlobRange", "GetManifest", "GetTag", "ResolveBlob", "ResolveManifest", "ResolveTag", "PushBlob", "PushBlobChunked", "PushBlobChunkedResume", "PushBlobChunkedResume(-1)", "MountBlob", "PushManifest", "DeleteBlob", "DeleteManifest", "DeleteTag", "Repositories", "Tags", "Referrers", "Upload"}
 	for st := 0; st < states; st++ {
 		rng := run.Rand(12, uint64(st))
 		// a populated state built through an allow-all wrapper
 		prefix := buildPrefix(rng, u, opts, 25)
 		for _, sel := range []bool{false, true} {
 			for mi, m := range methods {
-				nAssign := 2
-				if m == "MountBlob" {
-					nAssign = 4
-				}
+				// assignments: 0..3 deny whole repositories (to / from); 4..11 deny exactly one
+				// (repository, access kind) pair, so that a check made with the wrong kind shows
+				nAssign := 12
 				for a := 0; a < nAssign; a++ {
 					from, to := "a", "c"
+					if m != "MountBlob" && (a == 2 || a == 3 || a >= 8) {
+						continue // only the mount has a second repository
+					}
+					a := a
 					pol := func(repo string, kind ocifilter.AccessKind) bool {
+						if a >= 4 {
+							deniedRepo, deniedKind := to, ocifilter.AccessKind((a-4)%4)
+							if a >= 8 {
+								deniedRepo = from
+							}
+							if deniedKind == ocifilter.AccessList || deniedKind == ocifilter.AccessRead {
+								// read and list verdicts are kept equal
+								return !(repo == deniedRepo && (kind == ocifilter.AccessRead || kind == ocifilter.AccessList))
+							}
+							return !(repo == deniedRepo && kind == deniedKind)
+						}
 						switch {
 						case repo == to:
 							return a&1 == 0
@@ -286,6 +300,9 @@ func main() {
 							return a&2 == 0
 						}
 						return true
+					}
+					if sel && a >= 4 {
+						continue // Select's allow function sees names only
 					}
 					w := newWorld(run, sel, func(string, ocifilter.AccessKind) bool { return true })
 					for _, op := range prefix {
@@ -295,7 +312,7 @@ func main() {
 					op := coreOp(rng, u, w, m, from, to)
 					run.Eval(1)
 					w.step(op)
-					if m == "PushBlobChunked" || m == "PushBlobChunkedResume" {
+					if strings.HasPrefix(m, "PushBlobChunked") {
 						// writer use after an allowed open behaves as on the twin
 						if h := len(w.wrapped.Writers) - 1; h >= 0 && w.allowed(need{to, ocifilter.AccessWrite}) {
 							data := []byte("core upload")
@@ -336,6 +353,7 @@ func main() {
 		}
 	}
 	for _, m := range methods {
+		m = strings.TrimSuffix(m, "(-1)")
 		run.Floor("denied/"+m, 1, int(run.Counter("denied/"+m)))
 		run.Floor("allowed/"+m, 1, int(run.Counter("allowed/"+m)))
 	}
@@ -408,6 +426,8 @@ func coreOp(rng *rand.Rand, u *model.Universe, w *world, m, from, to string) *mo
 		return &model.Op{Kind: m, Repo: to, Hint: 0}
 	case "PushBlobChunkedResume":
 		return &model.Op{Kind: m, Repo: to, IDLit: "some-upload-id", Offset: 0, H: -1}
+	case "PushBlobChunkedResume(-1)":
+		return &model.Op{Kind: "PushBlobChunkedResume", Repo: to, IDLit: "some-upload-id", Offset: -1, H: -1}
 	case "MountBlob":
 		return &model.Op{Kind: m, From: from, Repo: to, Digest: d}
 	case "PushManifest":
